@@ -161,12 +161,14 @@ class FixedClock(datetime.datetime):
     """Stand-in for the ``datetime`` class inside a module: a real subclass, only the doors to
     'now' are answered from ``current``."""
     current = None
+    local_offset = datetime.timedelta(0)      # UTC offset of the process time zone
 
     @classmethod
     def now(cls, tz=None):
         c = cls.current
         if tz is None:
-            return c.astimezone(datetime.timezone.utc).replace(tzinfo=None)
+            # naive LOCAL wall clock, as the real datetime.now() gives it
+            return (c.astimezone(datetime.timezone.utc) + cls.local_offset).replace(tzinfo=None)
         return c.astimezone(tz)
 
     @classmethod
@@ -199,3 +201,32 @@ def install_clock(module, current):
             setattr(module, name, _DatetimeModule(FixedClock))
     if abs((datetime.datetime.now(datetime.timezone.utc) - current).total_seconds()) > 20 * 3600:
         raise HarnessError("the reference instant is more than 20 h away from the real clock")
+
+
+ZONES = {"UTC": ("UTC0", datetime.timedelta(0)),
+         "UTC-3": ("<-03>3", datetime.timedelta(hours=-3)),
+         "UTC+5:30": ("<+0530>-5:30", datetime.timedelta(hours=5, minutes=30))}
+
+
+@contextlib.contextmanager
+def process_zone(name):
+    """run with the process time zone ``name`` (TZ + tzset, so that every real door to local
+    time agrees with the owned clock's naive now())"""
+    import time
+    tz, off = ZONES[name]
+    old = os.environ.get("TZ")
+    old_off = FixedClock.local_offset
+    os.environ["TZ"] = tz
+    time.tzset()
+    FixedClock.local_offset = off
+    if abs(-time.timezone - off.total_seconds()) > 1:
+        raise HarnessError("time zone %s not in effect (offset %s)" % (tz, -time.timezone))
+    try:
+        yield
+    finally:
+        if old is None:
+            os.environ.pop("TZ", None)
+        else:
+            os.environ["TZ"] = old
+        time.tzset()
+        FixedClock.local_offset = old_off
